@@ -3,7 +3,29 @@ use boa_engine::object::{IndexProperties, PropertyMap};
 use boa_engine::property::{PropertyDescriptor, PropertyKey};
 use boa_engine::value::JsVariant;
 use boa_engine::{JsValue, js_string, JsString};
+use boa_engine::{Context, Source};
 use std::io::{BufRead, Write};
+
+/// the array `a` of the JS-level mode: storage variant, `length`, and contents read from its PropertyMap
+fn js_dump(ctx: &mut Context) -> String {
+    let a = ctx.global_object().get(js_string!("a"), ctx).unwrap();
+    let o = a.as_object().unwrap();
+    let len = o.get(js_string!("length"), ctx).unwrap().to_number(ctx).unwrap() as u64;
+    let b = o.borrow();
+    let m = b.properties();
+    let mut all: Vec<(u32, String)> = m.index_properties().map(|(k, d)| (k, show_desc(&d))).collect();
+    all.sort();
+    format!("v={} len={} {}", variant(m), len, all.iter().map(|(k, d)| format!("{k}={d}")).collect::<Vec<_>>().join(" ")).trim_end().to_string()
+}
+fn js_run(ctx: &mut Context, k: Option<u32>, v: Option<JsValue>, src: &str) -> String {
+    let g = ctx.global_object();
+    if let Some(k) = k { g.set(js_string!("k"), JsValue::new(k), false, ctx).unwrap(); }
+    if let Some(v) = v { g.set(js_string!("v"), v, false, ctx).unwrap(); }
+    match ctx.eval(Source::from_bytes(src.as_bytes())) {
+        Ok(r) => show_val(&r),
+        Err(e) => format!("throw {e}"),
+    }
+}
 
 fn val(s: &str) -> JsValue {
     let (t, n) = s.split_at(2);
@@ -54,6 +76,7 @@ fn main() {
     let stdin = std::io::stdin();
     let mut out = std::io::BufWriter::new(std::io::stdout());
     let mut m = PropertyMap::default();
+    let mut ctx: Option<Context> = None;
     for line in stdin.lock().lines() {
         let line = line.unwrap();
         let t: Vec<&str> = line.split_whitespace().collect();
@@ -72,6 +95,14 @@ fn main() {
                 format!("{} | {}", all.iter().map(|(k, d)| format!("{k}={d}")).collect::<Vec<_>>().join(" "),
                         keys.iter().map(u32::to_string).collect::<Vec<_>>().join(","))
             }
+            // JS-level mode: the operations run through the VM and the builtins on a real array; what is compared is the
+            // storage the engine ends up with (variant and contents), i.e. the dense fast paths against the model's
+            ["jsreset"] => { let mut c = bvh::new_context(bvh::Limits::default()); js_run(&mut c, None, None, "var a = []; 0"); ctx = Some(c); "ok".to_string() }
+            ["aset", k, v] => { let c = ctx.as_mut().unwrap(); js_run(c, Some(k.parse().unwrap()), Some(val(v)), "a[k] = v; 0"); js_dump(c) }
+            ["aget", k] => { let c = ctx.as_mut().unwrap(); js_run(c, Some(k.parse().unwrap()), None, "a[k]") }
+            ["apush", v] => { let c = ctx.as_mut().unwrap(); js_run(c, None, Some(val(v)), "a.push(v); 0"); js_dump(c) }
+            ["ashift"] => { let c = ctx.as_mut().unwrap(); let r = js_run(c, None, None, "a.shift()"); format!("r={} {}", r, js_dump(c)) }
+            ["adel", k] => { let c = ctx.as_mut().unwrap(); js_run(c, Some(k.parse().unwrap()), None, "delete a[k]; 0"); js_dump(c) }
             _ => "bad-op".into(),
         };
         writeln!(out, "{ans}").unwrap();
